@@ -79,7 +79,8 @@ class TS:
                 elif isinstance(n, ast.For) and isinstance(n.target, ast.Name):
                     if self.is_blocks_expr(n.iter, stores):
                         tgt, val = n.target.id, ast.Subscript(value=n.iter, slice=ast.Constant(0), ctx=ast.Load())
-                if tgt and val is not None and tgt not in names and self.is_block_expr(val, stores, names):
+                cls_ctor = isinstance(val, ast.Call) and norm(val.func) == 'cls' and fn.cls is self.block and fn.kind == 'classmethod'
+                if tgt and val is not None and tgt not in names and (self.is_block_expr(val, stores, names) or cls_ctor):
                     names.add(tgt)
                     changed = True
         return names
